@@ -180,12 +180,10 @@ def batch_distribute(ctx):
             cases += 1
             try:
                 new = apply_distributive_property_to_einsums(expr, how)
-            except RuntimeError as e:
-                if "composed" in str(e):
-                    composed += 1
-                    continue
-                raise
             except Exception as e:   # noqa: BLE001
+                if type(e) is RuntimeError and "composed" in str(e):
+                    composed += 1      # documented: a DoDistribute einsum under a distributing context
+                    continue
                 dis += 1
                 ctx.violation(f"distribute:exception:{type(e).__name__}",
                               f"expression {pi} policy {pol}: apply_distributive_property_to_einsums raised "
